@@ -516,3 +516,553 @@ def oracle(ctx, widened):
 
 def replay(f):
     return Outcome()
+
+
+# =====================================================================================
+#        extract: watched quantities, guards and labels translated from the source
+# =====================================================================================
+
+SPHERICAL = {"phi": "phi", "phi_dot": "phidot", "r_dot": "rdot"}
+CLASSES = [  # (class, lean prefix, has f translated from __call__)
+    ("NodeListener", "node", True),
+    ("ApsideListener", "apside", True),
+    ("StationSignalListener", "signal", True),
+    ("StationMaskListener", "mask", True),
+    ("StationMaxListener", "max", True),
+    ("RadialVelocityListener", "radvel", True),
+    ("LightListener", "light", False),
+    ("TerminatorListener", "terminator", False),
+]
+
+
+class Untranslatable(Exception):
+    pass
+
+
+def _is_view(n):
+    """orb / orb2 / orb.copy(...) : the state in the listener's own frame, spherical form"""
+    import ast
+    if isinstance(n, ast.Name) and n.id in ("orb", "orb2"):
+        return True
+    return (isinstance(n, ast.Call) and isinstance(n.func, ast.Attribute) and n.func.attr == "copy"
+            and isinstance(n.func.value, ast.Name) and n.func.value.id in ("orb", "orb2"))
+
+
+def _expr(n):
+    """Python expression over the quantities of one listener -> Lean term (Int / Bool / String)"""
+    import ast
+    if isinstance(n, ast.Attribute) and n.attr in SPHERICAL and _is_view(n.value):
+        return SPHERICAL[n.attr]
+    if isinstance(n, ast.Attribute) and isinstance(n.value, ast.Name) and n.value.id == "self" and n.attr in ("elev", "sight"):
+        return n.attr
+    if isinstance(n, ast.Call) and isinstance(n.func, ast.Name) and n.func.id == "self" and len(n.args) == 1:
+        a = n.args[0]
+        if isinstance(a, ast.Name) and a.id == "orb":
+            return "fe"
+        if isinstance(a, ast.Attribute) and a.attr == "prev" and isinstance(a.value, ast.Name) and a.value.id == "self":
+            return "fp"
+    if isinstance(n, ast.Call) and isinstance(n.func, ast.Attribute) and n.func.attr == "get_mask" and ast.unparse(n) == "self.station.get_mask(orb.theta)":
+        return "mask"
+    if isinstance(n, ast.Call) and isinstance(n.func, ast.Name) and n.func.id == "abs" and ast.unparse(n.args[0]) == "self._diff(orb)":
+        return "(Int.natAbs fe : Int)"
+    if isinstance(n, ast.Constant) and isinstance(n.value, bool):
+        return "true" if n.value else "false"
+    if isinstance(n, ast.Constant) and isinstance(n.value, int):
+        return f"({n.value} * unit)"
+    if isinstance(n, ast.Constant) and isinstance(n.value, str):
+        return '"' + n.value + '"'
+    if isinstance(n, ast.BinOp) and isinstance(n.op, (ast.Sub, ast.Add)):
+        return f"({_expr(n.left)} {'-' if isinstance(n.op, ast.Sub) else '+'} {_expr(n.right)})"
+    if isinstance(n, ast.Compare) and len(n.ops) == 1:
+        op = {ast.Lt: "<", ast.Gt: ">", ast.LtE: "≤", ast.GtE: "≥"}.get(type(n.ops[0]))
+        if op:
+            return f"decide ({_expr(n.left)} {op} {_expr(n.comparators[0])})"
+        if isinstance(n.ops[0], ast.Eq) and ast.unparse(n) == "self.type == self.UMBRA":
+            return "umbra"
+    if isinstance(n, ast.BoolOp):
+        op = " || " if isinstance(n.op, ast.Or) else " && "
+        return "(" + op.join(_expr(v) for v in n.values) + ")"
+    if isinstance(n, ast.IfExp):
+        return f"(if {_expr(n.test)} then {_expr(n.body)} else {_expr(n.orelse)})"
+    raise Untranslatable(ast.unparse(n))
+
+
+def _is_super_check(n):
+    import ast
+    return ast.unparse(n) == "super().check(orb)"
+
+
+def _event_const(classes, call):
+    """label of `MaxEvent(self)` / `self.event(self)`: the string given to Event.__init__ by the event class"""
+    import ast
+    raise Untranslatable(ast.unparse(call))
+
+
+def _body(stmts, env):
+    """statement list of `info` / `check` / `__call__` -> Lean term.  env: local string variables, event constants"""
+    import ast
+    stmts = [s for s in stmts if not (isinstance(s, ast.Expr) and isinstance(s.value, ast.Constant))]  # docstrings
+    if not stmts:
+        raise Untranslatable("empty body")
+    s, rest = stmts[0], stmts[1:]
+    if isinstance(s, ast.Assign) and len(s.targets) == 1 and isinstance(s.targets[0], ast.Name) and s.targets[0].id in ("orb", "orb2") and _is_view(s.value):
+        return _body(rest, env)   # a change of frame / form of the same state
+    if isinstance(s, ast.If):
+        # branches that assign a local string then fall through
+        def branch(b):
+            if len(b) == 1 and isinstance(b[0], ast.Assign) and isinstance(b[0].targets[0], ast.Name) and isinstance(b[0].value, ast.Constant):
+                return _body(rest, dict(env, **{b[0].targets[0].id: _expr(b[0].value)}))
+            return _body(b + rest, env)
+        return f"(if {_expr(s.test)} then {branch(s.body)} else {branch(s.orelse)})"
+    if isinstance(s, ast.Return):
+        v = s.value
+        if _is_super_check(v):
+            return "true"
+        if isinstance(v, ast.BoolOp) and isinstance(v.op, ast.And) and _is_super_check(v.values[-1]):
+            return "(" + " && ".join(_expr(x) for x in v.values[:-1]) + ")"
+        if isinstance(v, ast.Call) and ast.unparse(v.func) in env.get("__events__", {}):
+            args = v.args
+            if len(args) == 2:
+                a = args[1]
+                if isinstance(a, ast.Name) and a.id in env:
+                    return env[a.id]
+                return _expr(a)
+            if len(args) == 1:
+                c = env["__events__"][ast.unparse(v.func)]
+                if c is None:
+                    raise Untranslatable("event class without constant label: " + ast.unparse(v))
+                return '"' + c + '"'
+        return _expr(v)
+    raise Untranslatable(ast.unparse(s))
+
+
+def translate_listeners(src):
+    """returns the text of Generated/ListenSrc.lean"""
+    import ast
+    tree = ast.parse(src)
+    classes = {n.name: n for n in tree.body if isinstance(n, ast.ClassDef)}
+
+    def method(cls, name):
+        c = classes[cls]
+        for n in c.body:
+            if isinstance(n, ast.FunctionDef) and n.name == name:
+                return n
+        for b in c.bases:
+            if isinstance(b, ast.Name) and b.id in classes:
+                m = method(b.id, name)
+                if m is not None:
+                    return m
+        return None
+
+    def class_attr(cls, name):
+        c = classes[cls]
+        for n in c.body:
+            if isinstance(n, ast.Assign) and isinstance(n.targets[0], ast.Name) and n.targets[0].id == name:
+                return n.value
+        for b in c.bases:
+            if isinstance(b, ast.Name) and b.id in classes:
+                v = class_attr(b.id, name)
+                if v is not None:
+                    return v
+        return None
+
+    def event_constant(evcls):
+        """the literal passed as `info` by an Event subclass whose __init__ takes only the listener"""
+        init = method(evcls, "__init__")
+        if init is None or len(init.args.args) != 2:
+            return None
+        for n in ast.walk(init):
+            if isinstance(n, ast.Call) and ast.unparse(n.func) == "super().__init__" and len(n.args) == 2 and isinstance(n.args[1], ast.Constant):
+                return n.args[1].value
+        return None
+
+    out = ["/- GENERATED by harness/props/C10.py (extract) from beyond/propagators/listeners.py — do not edit.",
+           "Watched quantity (`__call__`), guard (the part of an overridden `check` before `super().check`) and label",
+           "(`info`) of every listener class, translated from the Python AST.  Quantities: `phi phidot rdot` spherical",
+           "components of the state in the listener's frame, `mask = station.get_mask(theta)`, `fe = self(orb)`,",
+           "`fp = self(self.prev)`; integer literals are multiplied by `unit` (the fixed-point scale of the quantity). -/",
+           "namespace BeyondVerif.Generated.ListenSrc", "set_option linter.unusedVariables false", ""]
+    for cls, pre, has_f in CLASSES:
+        evname = ast.unparse(class_attr(cls, "event"))
+        events = {"self.event": event_constant(evname), evname: event_constant(evname)}
+        for other in classes:
+            if other.endswith("Event"):
+                events.setdefault(other, event_constant(other))
+        env = {"__events__": events}
+        if has_f:
+            f = _body(method(cls, "__call__").body, env)
+            out.append(f"/-- `{cls}.__call__` -/")
+            out.append(f"def {pre}F (unit phi phidot rdot elev mask : Int) : Int := {f}")
+        chk = method(cls, "check")
+        owner_is_base = chk is method("Listener", "check")
+        g = "true" if owner_is_base else _body(chk.body, env)
+        out.append(f"/-- `{cls}.check`: condition under which `Listener.check` is consulted -/")
+        out.append(f"def {pre}Guard (unit : Int) (sight : Bool) (phi phidot rdot fe : Int) : Bool := {g}")
+        lab = _body(method(cls, "info").body, env)
+        out.append(f"/-- `{cls}.info(orb).info` -/")
+        out.append(f"def {pre}Label (unit : Int) (umbra : Bool) (phi phidot rdot fe fp : Int) : String := {lab}")
+        out.append("")
+    # AnomalyListener: guard from the AST, label prefixes from the ANOMALIES table (evaluated on the live class)
+    env = {"__events__": {}}
+    out.append("/-- `AnomalyListener.check` -/")
+    out.append(f"def anomalyGuard (unit : Int) (sight : Bool) (phi phidot rdot fe : Int) : Bool := {_body(method('AnomalyListener', 'check').body, env)}")
+    return out
+
+
+def anomaly_labels():
+    """label prefix per anomaly key, by calling the real `info` on a stub"""
+    _setup()
+    from beyond.propagators import listeners as LS
+
+    class _O:
+        def copy(self, **kw):
+            return self
+    for k in ("ν", "M", "E", "u"):
+        setattr(_O, k, 0.0)
+    res = []
+    for key in LS.AnomalyListener.ANOMALIES:
+        res.append((key, LS.AnomalyListener(0.0, key).info(_O()).info.split(" = ")[0]))
+    return res
+
+
+def extract(ctx):
+    src = open(os.path.join(core.REPO, "beyond", "propagators", "listeners.py")).read()
+    out = translate_listeners(src)
+    labs = anomaly_labels()
+    out.append("/-- text before ` = ` in `AnomalyListener.info`, per key of `AnomalyListener.ANOMALIES` -/")
+    out.append("def anomalyLabels : List (String × String) := [" + ", ".join(f'("{k}", "{v}")' for k, v in labs) + "]")
+    out.append("")
+    out.append("end BeyondVerif.Generated.ListenSrc")
+    ch = core.write_if_changed(os.path.join(core.LEAN, "BeyondVerif", "Generated", "ListenSrc.lean"), "\n".join(out) + "\n")
+    return ["Generated/ListenSrc.lean"] if ch else []
+
+
+# =====================================================================================
+#   correspondence: the REAL Speaker.listen / _bisect / Listener.check / clear, the real listener
+#   classes and the real iter() of AnalyticalPropagator and Ephem, driven through stub states whose
+#   spherical components are integer polynomials of the date in µs  —  against the Lean model
+# =====================================================================================
+
+ANOM_UNIT = 1 << 20
+KINDS = ["node", "apside", "signal", "mask", "max", "radvel0", "radvel1", "umbra", "penumbra", "terminator",
+         "anomaly:true", "anomaly:mean", "anomaly:eccentric", "anomaly:aol"]
+
+
+def evalpoly(cs, x):
+    acc = 0
+    for c in reversed(cs):
+        acc = c + x * acc
+    return acc
+
+
+class _Env:
+    """stub classes, built once (after beyond has been imported from core.REPO)"""
+    _inst = None
+
+    @classmethod
+    def get(cls):
+        if cls._inst is None:
+            cls._inst = cls()
+        return cls._inst
+
+    def __init__(self):
+        _setup()
+        from beyond.dates import Date
+        from beyond.propagators.base import AnalyticalPropagator
+        from beyond.orbits.ephem import Ephem
+        from beyond.propagators import listeners as LS
+        env = self
+        self.LS = LS
+        self.Date = Date
+        self.EPOCH = Date(2020, 1, 1)
+        self.ambiguous = False
+
+        def us(date):
+            return (date - env.EPOCH) // US
+        self.us = us
+
+        class View:
+            """`orb.copy(frame=key, form=…)`: the components the listeners read"""
+            def __init__(self, t, ch):
+                self.t, self.ch = t, ch
+            phi = property(lambda s: evalpoly(s.ch[0], s.t))
+            phi_dot = property(lambda s: evalpoly(s.ch[1], s.t))
+            r_dot = property(lambda s: evalpoly(s.ch[2], s.t))
+            theta = property(lambda s: s.t)
+            raw = phi
+
+            def _anom(self):
+                x = evalpoly(self.ch[0], self.t)
+                x = max(-3 * ANOM_UNIT, min(3 * ANOM_UNIT, x))
+                if abs(x) == 2 * ANOM_UNIT:
+                    env.ambiguous = True     # |diff| < 2 is decided by float rounding of (x + π) % 2π − π
+                return x / ANOM_UNIT
+        for a in ("ν", "M", "E", "u"):
+            setattr(View, a, property(View._anom))
+
+        class StubOrb:
+            def __init__(self, date, chans):
+                self.date, self.chans, self.event = date, chans, None
+                self.t = us(date)
+
+            def copy(self, *, frame=None, form=None, same=None):
+                if frame is None and form is None:
+                    o = StubOrb(self.date, self.chans)
+                    o.event = self.event
+                    return o
+                return View(self.t, self.chans[frame])
+
+        class Key:
+            """stands for a frame or a station"""
+            mask = True
+
+            def __init__(self, chans_entry):
+                self.entry = chans_entry
+
+            def get_mask(self, azim):
+                return evalpoly(self.entry[3], azim)
+
+        class StubLight(LS.LightListener):
+            def __call__(self, orb):
+                return orb.copy(frame=self.frame, form="cartesian").raw
+
+        class StubTerminator(LS.TerminatorListener):
+            def __init__(self, key):
+                self._frame = key
+
+            def __call__(self, orb):
+                return orb.copy(frame=self._frame, form="cartesian").raw
+
+        class StubProp(AnalyticalPropagator):
+            def __init__(self, chans):
+                self.chans = chans
+                self.orbit = StubOrb(env.EPOCH, chans)
+                self.calls = 0
+
+            def propagate(self, date):
+                self.calls += 1
+                return StubOrb(date, self.chans)
+
+        class StubEphem(Ephem):
+            def __init__(self, dates, chans):
+                self.chans = chans
+                self._orbits = [StubOrb(d, chans) for d in sorted(dates, key=lambda d: d._mjd)]
+
+            def interpolate(self, date):
+                return StubOrb(date, self.chans)
+
+        self.View, self.StubOrb, self.Key, self.StubLight, self.StubTerminator, self.StubProp, self.StubEphem = View, StubOrb, Key, StubLight, StubTerminator, StubProp, StubEphem
+
+    def date(self, t):
+        from datetime import timedelta
+        return self.EPOCH + timedelta(microseconds=t)
+
+    def build(self, specs):
+        """specs: list of (kind, A, B, C, D, elev) -> (listeners, chans)"""
+        LS = self.LS
+        chans = {}
+        Ls = []
+        for kind, A, B, C, D, E in specs:
+            entry = (A, B, C, D, E)
+            key = self.Key(entry)
+            chans[key] = entry
+            if kind == "node":
+                L = LS.NodeListener(frame=key)
+            elif kind == "apside":
+                L = LS.ApsideListener(frame=key)
+            elif kind == "signal":
+                L = LS.StationSignalListener(key, elev=E)
+            elif kind == "mask":
+                L = LS.StationMaskListener(key)
+            elif kind == "max":
+                L = LS.StationMaxListener(key)
+            elif kind in ("radvel0", "radvel1"):
+                L = LS.RadialVelocityListener(key, sight=kind == "radvel1")
+            elif kind in ("umbra", "penumbra"):
+                L = self.StubLight(kind, frame=key)
+            elif kind == "terminator":
+                L = self.StubTerminator(key)
+            elif kind.startswith("anomaly:"):
+                L = LS.AnomalyListener(0.0, kind.split(":")[1], frame=key)
+            else:
+                raise ValueError(kind)
+            Ls.append(L)
+        return Ls, chans
+
+    def signature(self, stream, Ls):
+        sig = []
+        for o in stream:
+            if o.event:
+                idx = next(i for i, L in enumerate(Ls) if o.event.listener is L)
+                sig.append(f"{self.us(o.date)}/{idx}/{o.event.info.split(' = ')[0]}")
+            else:
+                sig.append(f"{self.us(o.date)}/-")
+        return ";".join(sig)
+
+
+def gen_poly(rng, lo, hi, samples, maxdeg=3):
+    """integer polynomial with roots inside [lo, hi] (some exactly on samples), |value| < 2^62 on the window"""
+    W = max(hi - lo, 2)
+    deg = rng.randint(0, maxdeg)
+    while deg > 0 and 4 * (2 * W) ** deg >= 1 << 61:
+        deg -= 1
+    cs = [rng.choice([1, -1, 2, -3])]
+    for _ in range(deg):
+        if rng.random() < 0.25 and samples:
+            r = rng.choice(samples)
+        else:
+            r = rng.randint(lo - W // 10, hi + W // 10)
+        # multiply by (x - r)
+        new = [0] * (len(cs) + 1)
+        for i, c in enumerate(cs):
+            new[i + 1] += c
+            new[i] -= r * c
+        cs = new
+    if rng.random() < 0.3:
+        cs[0] += rng.randint(-3, 3)
+    return cs
+
+
+def gen_samples(rng):
+    """sample dates in µs after the epoch: (list, kind)"""
+    r = rng.random()
+    n = rng.randint(2, 14)
+    if r < 0.12:
+        sp = [rng.choice([1, 1, 2, 3]) for _ in range(n)]
+        kind = "tiny"
+    elif r < 0.55:
+        s = rng.choice([2, 3, 4, 5, 7, 10, 33, 100, 1000, 4097])
+        sp = [s] * n
+        kind = "regular-small"
+    elif r < 0.8:
+        s = rng.choice([10**5, 10**6, 3 * 10**6 + 1, 6 * 10**7, 10**8 + 7])
+        sp = [s] * n
+        kind = "regular-large"
+    else:
+        sp = [rng.choice([2, 5, 1000, 10**6, 12345677]) for _ in range(n)]
+        kind = "irregular"
+    t0 = rng.choice([0, 1, 10**6, 86400 * 10**6 - 5, rng.randrange(10**10)])
+    ts = [t0]
+    for d in sp:
+        ts.append(ts[-1] + d)
+    if rng.random() < 0.2:
+        ts.reverse()
+        kind += "-backward"
+    return ts, kind
+
+
+def gen_case(rng):
+    ts, skind = gen_samples(rng)
+    lo, hi = min(ts), max(ts)
+    specs = []
+    for _ in range(rng.choice([1, 1, 2, 2, 3, 4, 6])):
+        kind = rng.choice(KINDS)
+        if kind.startswith("anomaly"):
+            # radians * 2^20: slope such that the window covers a few radians
+            W = max(hi - lo, 1)
+            r = rng.choice(ts) if rng.random() < 0.3 else rng.randint(lo, hi)
+            num = rng.choice([1, -1, 2, 5]) * max(1, (4 * ANOM_UNIT) // W)
+            A = [-r * num, num]
+        else:
+            A = gen_poly(rng, lo, hi, ts)
+        B = gen_poly(rng, lo, hi, ts, 2)
+        C = gen_poly(rng, lo, hi, ts, 2)
+        D = gen_poly(rng, lo, hi, ts, 1)
+        E = rng.choice([0, 0, 1, -2, 1000])
+        specs.append((kind, A, B, C, D, E))
+    mode = rng.choice(["dates", "dates", "range", "ephem-dates", "ephem-step", "ephem-nostep"])
+    steps = {ts[i + 1] - ts[i] for i in range(len(ts) - 1)}
+    if mode in ("range", "ephem-step") and (len(steps) != 1 or (mode == "ephem-step" and ts[1] < ts[0])):
+        mode = "dates"
+    if mode == "ephem-nostep" and ts[1] < ts[0]:
+        mode = "ephem-dates"
+    history = rng.choice(["fresh", "fresh", "reuse", "abandoned"])
+    return ts, skind, specs, mode, history
+
+
+def case_line(ts, specs):
+    p = lambda cs: ",".join(str(c) for c in cs)
+    return "c10 " + p(ts) + " " + " ".join(f"{k} {p(A)} {p(B)} {p(C)} {p(D)} {E}" for k, A, B, C, D, E in specs)
+
+
+def real_stream(env, ts, specs, mode, history):
+    from datetime import timedelta
+    Ls, chans = env.build(specs)
+    dates = [env.date(t) for t in ts]
+    if mode.startswith("ephem"):
+        # stored points: the samples themselves (nostep) or a coarser grid around them
+        if mode == "ephem-nostep":
+            src = env.StubEphem(dates, chans)
+        else:
+            lo, hi = min(ts), max(ts)
+            src = env.StubEphem([env.date(lo - 5), env.date((lo + hi) // 2), env.date(hi + 5)], chans)
+    else:
+        src = env.StubProp(chans)
+
+    def run(ts_, dates_):
+        if mode in ("dates", "ephem-dates"):
+            return src.iter(dates=list(dates_), listeners=Ls)
+        step = timedelta(microseconds=ts_[1] - ts_[0])
+        if mode == "range":
+            return src.iter(start=dates_[0], stop=dates_[-1], step=step, listeners=Ls)
+        if mode == "ephem-step":
+            return src.iter(start=dates_[0], stop=dates_[-1], step=step, listeners=Ls)
+        if mode == "ephem-nostep":
+            return src.iter(start=dates_[0], stop=dates_[-1], listeners=Ls)
+        raise ValueError(mode)
+    if history == "reuse":
+        list(run(ts, dates))
+    elif history == "abandoned":
+        g = run(ts, dates)
+        for _ in range(3):
+            next(g, None)
+    return env.signature(list(run(ts, dates)), Ls)
+
+
+def correspondence(ctx):
+    out = Outcome()
+    env = _Env.get()
+    rng = ctx.rng
+    cases = []
+    for _ in range(ctx.n(500, 40000)):
+        cases.append(gen_case(rng))
+    lines = [case_line(ts, specs) for ts, _, specs, _, _ in cases]
+    # _bisect alone, on the real Speaker
+    bis = []
+    for _ in range(ctx.n(300, 20000)):
+        b = rng.randrange(10**9)
+        d = rng.choice([0, 1, -1, 2, -2, 3, -3, 5, 6, 7, -7, 1000, -999, 10**6 + 1, rng.randint(-10**8, 10**8)])
+        P = gen_poly(rng, min(b, b + d), max(b, b + d), [b, b + d])
+        bis.append((b, b + d, P))
+        lines.append(f"c10b {b} {b + d} " + ",".join(map(str, P)))
+    model = core.Driver().run(lines)
+    for (ts, skind, specs, mode, history), m in zip(cases, model[:len(cases)]):
+        env.ambiguous = False
+        try:
+            real = real_stream(env, ts, specs, mode, history)
+        except Exception as e:   # the model never raises: a raising implementation is a disagreement
+            real = f"raised {type(e).__name__}: {e}"
+        if env.ambiguous:
+            out.tally("skipped=anomaly-guard-on-float-boundary")
+            continue
+        nev = m.count("/") - m.count("/-") - (m.count("/") - m.count("/-")) // 2 if False else sum(1 for it in m.split(";") if not it.endswith("/-"))
+        out.count(key=(tuple(ts), tuple((s[0], tuple(s[1])) for s in specs), mode, history), nontrivial=nev > 0,
+                  samples=skind, mode=mode, history=history, listeners=len(specs), events=min(nev, 6))
+        for s in specs:
+            out.tally("kind=" + s[0])
+        if real != m:
+            out.fail("listen-stream", "output stream (dates, listener, labels, order) differs between Model/Listen.lean and the real Speaker/iter",
+                     {"samples": ts, "specs": specs, "mode": mode, "history": history, "line": case_line(ts, specs)}, observed=real, expected=m)
+        out.sample({"line": case_line(ts, specs)[:200], "reply": m[:200]}, limit=3)
+    L1 = env.build([("umbra", [0], [0], [0], [0], 0)])
+    for (b, e, P), m in zip(bis, model[len(cases):]):
+        Ls, chans = env.build([("umbra", P, [0], [0], [0], 0)])
+        sp = env.StubProp(chans)
+        ob, oe = env.StubOrb(env.date(b), chans), env.StubOrb(env.date(e), chans)
+        r = sp._bisect(ob, oe, Ls[0])
+        real = f"{env.us(r.date)} {sp.calls}"
+        mm = m.split(" ")
+        out.count(key=("bisect", b, e, tuple(P)), nontrivial=abs(e - b) >= 2, kind="bisect-alone")
+        if real != f"{mm[1]} {mm[2]}":
+            out.fail("bisect", "_bisect result / number of propagations differs from the model", {"b": b, "e": e, "poly": P}, observed=real, expected=m)
+    return out
